@@ -220,9 +220,20 @@ func threadRun(L *LState) {
 					L.reg.pushAlways(lv)
 					parent.Panic(L)
 				} else {
-					// the error value must not need room (the thread may have died of a full registry)
-					L.reg.pushAlways(lv)
-					switchToParentThread(L, 1, true, true)
+					// the error value goes straight to the resumer: it must not need room in the
+					// dead thread (which may have died of a full registry and keeps its registers
+					// for inspection), and moving it through that thread would
+					L.G.CurrentThread = parent
+					L.Parent = nil
+					L.kill()
+					need := parent.reg.top + 2
+					if need <= parent.reg.limit || need <= parent.reg.maxSize {
+						parent.Push(LFalse)
+						parent.Push(lv)
+					} else {
+						// the resumer has no room for (false, message): that failure is its own
+						parent.registryOverflow()
+					}
 				}
 			} else {
 				panic(rcv)
